@@ -73,8 +73,10 @@ def isInstanceInt : PyVal → Bool | .atom (.int _) => true | .atom (.bool _) =>
 def isInstanceFloat : PyVal → Bool | .atom (.float _) => true | _ => false
 def isInstanceBool : PyVal → Bool | .atom (.bool _) => true | _ => false
 def isInstanceUuid : PyVal → Bool | .atom (.uuid _) => true | _ => false
+/-- the value as an integer for `IntegerColumn` / `TranscriptStrand` validation:
+    `isinstance(v, int) and not isinstance(v, bool)` -/
 def asInt : PyVal → Option Int
-  | .atom (.int i) => some i | .atom (.bool b) => some (if b then 1 else 0) | _ => none
+  | .atom (.int i) => some i | _ => none
 
 /-- The element class of a sequence column, resolved through its MRO. -/
 structure ElemSpec where
@@ -246,11 +248,16 @@ def vEnum (enumCls : Option String) (v : PyVal) : Bool :=
   | some ec, .atom (.enum vc _) => vc != ec
   | _, _ => true
 
+/-- a text element must not contain the list separator -/
+def hasListSep : Atom → Bool
+  | .str s => s.contains ';'
+  | _ => false
+
 /-- `SequenceOfValuesColumn.__validate__` -/
 def vSeq (elemInvalid : Atom → Bool) (v : PyVal) : Bool :=
   match v with
-  | .list xs => xs.any elemInvalid
-  | .tuple xs => xs.any elemInvalid
+  | .list xs => xs.any (fun a => elemInvalid a || hasListSep a)
+  | .tuple xs => xs.any (fun a => elemInvalid a || hasListSep a)
   | _ => true
 
 /-- `NullableDnaString.__validate__` -/
